@@ -373,8 +373,8 @@ def run(prop="C17", tier="quick"):
         if sig is not None and not any(g.startswith(sig) for g in got):
             raise AnalysisBroken("R-STREAM no longer fires on its positive fixture %s (expected %s, got %s)" % (fname, sig, got))
     res["stats"]["stream_functions"] -= len(exp)
-    if res["stats"]["stream_functions"] < 8:
-        raise AnalysisBroken("R-STREAM found only %d stream functions (floor 8)" % res["stats"]["stream_functions"])
+    if res["stats"]["stream_functions"] < 6:
+        raise AnalysisBroken("R-STREAM found only %d stream functions (floor 6; today 9)" % res["stats"]["stream_functions"])
     res["stats"] = dict(res["stats"])
     res["obligations"] = res["stats"]["transfer_sites"]
     res["notes"].append("fixtures: 4 positive fired (incl. the pre-fix forms of gmp_fprintf_memory/reps), 3 negative silent")
